@@ -168,7 +168,7 @@ def run_shard(ctx: Ctx) -> None:
             raise Violation(msg, {"tree_pickle": pickle_b64(tree), "fault": list(fault) if fault else None,
                                   "relative": rel, "files": files})
 
-    hyp_run(ctx, case(), body, ctx.n(1500, 25000))
+    hyp_run(ctx, case(), body, ctx.n(3000, 25000))
 
 
 def replay(c: Dict[str, Any]) -> Optional[str]:
